@@ -59,7 +59,9 @@ def stepC (acc : CAcc) (op ob : String) : CAcc :=
                 (if served.answer == r.answer.map (· - d / ns) && served.authority == r.authority.map (· - d / ns) &&
                     served.additional == r.additional.map (· - d / ns) && (allTtls r).all (fun t => d / ns ≤ t)
                  then [] else
-                   [s!"unsat:C06.ttl_is_original_minus_elapsed:{if (allTtls served).zip (allTtls r) |>.any (fun (a, b) => a > b) then "ttl-grew-or-wrapped" else "wrong-decrement"}"])
+                   [s!"unsat:C06.ttl_is_original_minus_elapsed:{if (allTtls served).zip (allTtls r) |>.any (fun (a, b) => a > b) then "ttl-grew-or-wrapped" else "wrong-decrement"}",
+                    -- the same observation read as C03: TTLs are reduced by the time spent in the cache, nothing else
+                    "unsat:C03.ttl_reduced_by_time_in_cache_only:cache-hit"])
               | none => ["unsat:C06.same_key_only:hit-for-key-never-stored"]
             | none => ["unsat:C06.harness:unparsable-hit"]
           else if ob == "miss" then []
